@@ -690,6 +690,13 @@ func (w *World) VerifyFunc(fn *ssa.Function) *VC {
 			pc, h, res = f.mergeExits(exits, fn.Signature)
 			pv = w.Sorts.Zero(SIface)
 		}
+		// vacuity guard: the exit must not be provably unreachable (that would mean the
+		// assumptions collected on the way contradict each other)
+		if !isPanic {
+			cov := vc.Oblige(label, "cover", "exit", True, pc, "the normal exit is reachable")
+			cov.Negate = true
+			cov.Trivial = false
+		}
 		post := &SpecEnv{W: w, Vars: map[string]SVal{}, Heap: h, Old: heap, Scope: fc.ScopePkg, Side: vc,
 			Normal: BoolLit(!isPanic), Panics: BoolLit(isPanic), PV: pv}
 		for k, v := range vars {
@@ -795,7 +802,7 @@ func (f *Frame) frameObligation(label string, ec *effContract, pre *SpecEnv, h0,
 		}
 		_, vs, _ := t1.Sort.IsArray()
 		_ = vs
-		cond := And(append([]Term{Le(r, alloc0)}, excl...)...)
+		cond := And(append([]Term{Le(r, alloc0), Ne(r, IntLit(0))}, excl...)...)
 		// sub-objects (negative addresses) of allocated objects are covered too: r ≤ alloc0 includes them
 		goals = append(goals, Forall([]Term{r}, Implies(cond, Eq(Sel(t1, r), Sel(t0, r)))))
 		infos = append(infos, name)
@@ -1087,7 +1094,7 @@ func (f *Frame) frameFormula(comp compRef, h *Heap) (Term, bool) {
 		return True, true
 	}
 	r := Term{"r!", SInt}
-	conds := []Term{Le(r, top.entryHeap.Comp(allocComp, SInt))}
+	conds := []Term{Le(r, top.entryHeap.Comp(allocComp, SInt)), Ne(r, IntLit(0))}
 	for _, b := range top.frameMS.target[comp.name] {
 		conds = append(conds, Ne(r, b))
 	}
